@@ -230,9 +230,18 @@ class SymFS:
         self.opened = 0
         self.closed = 0
         self.handles: List["SymFile"] = []
+        self.links = {}  # symbolic links: name -> target name
+
+    def resolve(self, name) -> str:
+        name = str(name)
+        for _ in range(8):
+            if name not in self.links:
+                return name
+            name = self.links[name]
+        raise OSError(40, "Too many levels of symbolic links", name)
 
     def file(self, name) -> FileData:
-        name = str(name)
+        name = self.resolve(name)
         if name not in self.files:
             self.files[name] = FileData(name)
         return self.files[name]
@@ -277,7 +286,13 @@ class SymPath:
             raise FileNotFoundError(self._name)
         return _Stat(d.committed.length)
 
+    def is_symlink(self) -> bool:
+        return self._name in fs().links
+
     def unlink(self, missing_ok=False):
+        if self._name in fs().links:
+            del fs().links[self._name]
+            return
         d = fs().file(self._name)
         if not d.exists and not missing_ok:
             raise FileNotFoundError(self._name)
@@ -353,11 +368,29 @@ class SymPath:
         return hash(self._name)
 
 
+class _SameFileError(OSError):
+    pass
+
+
 class _Shutil:
+    SameFileError = _SameFileError
+    Error = OSError
+
     @staticmethod
     def copyfile(src, dst, *a, **k):
-        s = fs().file(str(src) if not isinstance(src, SymPath) else src._name)
-        d = fs().file(str(dst) if not isinstance(dst, SymPath) else dst._name)
+        follow = k.get("follow_symlinks", a[0] if a else True)
+        sname = str(src) if not isinstance(src, SymPath) else src._name
+        dname = str(dst) if not isinstance(dst, SymPath) else dst._name
+        if not follow and sname in fs().links:
+            # os.symlink(os.readlink(src), dst)
+            if dname in fs().links or fs().file(dname).exists:
+                raise FileExistsError(dname)
+            fs().links[dname] = fs().links[sname]
+            return dst
+        s = fs().file(sname)
+        d = fs().file(dname)
+        if s is d and s.exists:
+            raise _SameFileError(f"{sname!r} and {dname!r} are the same file")
         if not s.exists:
             raise FileNotFoundError(s.name)
         d.exists = True
